@@ -1,4 +1,4 @@
-import TracklibVerif.Lemmas.FeaturesSpec
+import TracklibVerif.Lemmas.FeaturesFrame
 /-! # C01 — the feature table stays aligned with the observations under any operation history
 
 Property theorems only. `St` is the model of the code (`Model/Features.lean`: the dict name → column index and
@@ -264,6 +264,30 @@ theorem prims_keep_coords (st : St V) (nm : String) (init : Init V) (i : Nat) (v
     split <;> (try rfl)
     split <;> (try rfl)
     split <;> cases c <;> rfl
+
+/-- T5: no side effects. For every API call — operators and `operate(str)` on any RPN included, returning or
+raising — a name the call does not designate (`touched`: the written name; for an expression its non-operator
+tokens and the `#` names) reads exactly as before, whether it is a feature, a coordinate `x y z`, the
+timestamps `t` or `idx`; and it is listed afterwards iff it was listed before. -/
+theorem step_frame (o : Ops V) (op : Op V) (st : St V) (h : Inv n st) (hok : OpOK n op) (m : String)
+    (hm : ¬ touched op m) :
+    read o (step o op st).2 m = read o st m ∧ (m ∈ names (step o op st).2 ↔ m ∈ names st) := by
+  have hi := inv_step o op st h hok
+  have href := step_refines o op st h hok
+  have hsame := (frame_step o op (abs st)).1
+  rw [href] at hsame
+  simp only at hsame
+  refine ⟨?_, ?_⟩
+  · rw [read_abs o hi, read_abs o h]
+    exact aread_same o hsame m hm
+  · rw [← names_abs, ← names_abs]
+    unfold anames
+    rw [← lookup_isSome_iff, ← lookup_isSome_iff, hsame.cols m hm]
+
+/-- T5 for the aggregate `SUM` (a non-void operator): the table is left exactly as it was. -/
+theorem sum_keeps_table (o : Ops V) (inp : String) (st : St V) (h : Inv n st) (m : String) :
+    read o (step o (.sum inp) st).2 m = read o st m :=
+  (step_frame o (.sum inp) st h trivial m (fun hf => hf)).1
 
 /-! ## Non-vacuity: an explicit history with delete-then-recreate, over the integers -/
 
